@@ -226,3 +226,52 @@ AEvent.methods["wait"] = amethod("asyncio.Event.wait", {"self": AEvent}, doc="aw
 
 def install_runtime_types(E):
     E.shared_types.update({"threading.Event": TEvent, "asyncio.Event": AEvent, "asyncio.Loop": ALoop, "asyncio.Future": Future, "threading.Lock": Lock})
+
+
+# ---- trio nursery / receive channel; executor; asyncio tasks ----------------------------------------------------------
+class _Scope:
+    pass
+
+
+Nursery = TAbs("trio.Nursery", fields={}, events=False)
+Nursery.methods["start_soon"] = amethod("nursery.start_soon", {"self": Nursery, "fn": None, "*args": None},
+                                        doc="start_soon(f, *a): f(*a) runs exactly once as a child task in the run's thread",
+                                        emits=lambda c, ctx, self, fn, args: ctx.emit("start_soon", self, fn, args[0] if args else None), has_events=True)
+CancelScope = TAbs("trio.CancelScope", fields={}, events=False)
+CancelScope.methods["cancel"] = amethod("cancel_scope.cancel", {"self": CancelScope}, doc="cancel(): delivers Cancelled to every child at its next checkpoint",
+                                        emits=lambda c, ctx, self: ctx.emit("scope.cancel", self), has_events=True)
+Nursery.fields["cancel_scope"] = CancelScope
+RChan = TAbs("trio.ReceiveChannel", fields=dict(peer=TAny()), events=False)
+ALoop.methods["run_in_executor"] = amethod(
+    "loop.run_in_executor", {"self": ALoop, "executor": None, "fn": None},
+    doc="run_in_executor(None, f): f() runs on a thread that is not the loop thread; awaiting yields f's outcome")
+
+
+def _rie_delegate(I, self, executor, fn):
+    from pyvc.interp import Coro
+
+    ctx = I.ctx
+
+    def thunk():
+        ctx.emit("run_in_executor", self, fn)
+        saved = ctx.ghost.get("here")
+        ctx.ghost["here"] = ("executor",)
+        try:
+            return I.call(fn, [], {})
+        finally:
+            ctx.ghost["here"] = saved
+
+    return Coro(thunk, "run_in_executor")
+
+
+ALoop.methods["run_in_executor"].delegate = _rie_delegate
+ATask = TAbs("asyncio.Task", fields=dict(task_done=BOOL), events=False)
+ATask.methods["done"] = amethod("Task.done", {"self": ATask}, result=BOOL, ensures=lambda c, self, result: Z.Val.b(result.t) == flag(self, "task_done"))
+ATask.methods["cancelled"] = amethod("Task.cancelled", {"self": ATask}, result=BOOL)
+ATask.methods["exception"] = amethod("Task.exception", {"self": ATask}, result=ANYT, requires=lambda c, self: {"task-is-done": flag(self, "task_done")},
+                                     emits=lambda c, ctx, self: ctx.emit("task.exception", self), has_events=True)
+ATask.methods["cancel"] = amethod("Task.cancel", {"self": ATask}, result=BOOL, emits=lambda c, ctx, self: ctx.emit("task.cancel", self), has_events=True)
+
+
+def install_runtime_types2(E):
+    E.shared_types.update({"trio.SendChannel": Chan, "trio.ReceiveChannel": RChan, "trio.Nursery": Nursery, "asyncio.Task": ATask})
